@@ -160,12 +160,12 @@ MUTANTS = [
     {"prop": "C08", "name": "parse-memo-without-unit-table-guard", "file": PR,
      "old": "        if as_delta and input_string in cache and input_string in self._units:\n",
      "new": "        if as_delta and input_string in cache:\n"},
-    {"prop": "C08", "name": "symbol-from-decomposition-only", "file": PR,
-     "old": "        try:\n            # a defined name, symbol or alias denotes that unit (as in get_name)\n            return self._units[name_or_alias].symbol\n        except KeyError:\n            pass\n\n",
-     "new": ""},
-    {"prop": "C08", "name": "case-insensitive-set-order", "file": PR,
-     "old": "                        key=lambda real_name: (real_name != name, real_name),\n",
-     "new": "                        key=lambda real_name: (real_name == name, real_name),\n"},
+    {"prop": "C08", "name": "case-folded-readings-not-after-exact-case", "file": PR,
+     "old": "            itertools.chain(\n                self._yield_unit_triplets(unit_name, True),\n                self._yield_unit_triplets(unit_name, False),\n            )\n",
+     "new": "            self._yield_unit_triplets(unit_name, False)\n"},
+    {"prop": "C08", "name": "registered-symbol-by-reparsing", "file": PR,
+     "old": "            symbol = prefix_def.symbol + self._units[unit_name].symbol\n",
+     "new": "            symbol = self.get_symbol(name, case_sensitive)\n"},
     # ------------------------------------------------------------------ C10
     {"prop": "C10", "name": "warm-cache-not-installed", "file": PR,
      "old": "            else:\n                self._cache = cache\n            return\n", "new": "            return\n"},
